@@ -24,9 +24,21 @@ AutoCorrelationTransitionMatrix::AutoCorrelationTransitionMatrix(std::shared_ptr
     addParameter_(new Parameter(prefix + "lambda" + TextTools::toString(i + 1), p, Parameter::PROP_CONSTRAINT_EX));
   }
 
-  for (size_t i = 0; i < size; ++i)
+  computeEquilibriumFrequencies_();
+}
+
+void AutoCorrelationTransitionMatrix::computeEquilibriumFrequencies_()
+{
+  // Detailed flow balance: pi_i * (1 - lambda_i) is the same for all states.
+  double sum = 0;
+  for (size_t i = 0; i < vAutocorrel_.size(); ++i)
   {
-    eqFreq_[i] = p;
+    eqFreq_[i] = 1. / (1. - vAutocorrel_[i]);
+    sum += eqFreq_[i];
+  }
+  for (size_t i = 0; i < vAutocorrel_.size(); ++i)
+  {
+    eqFreq_[i] /= sum;
   }
 }
 
@@ -78,6 +90,7 @@ void AutoCorrelationTransitionMatrix::fireParameterChanged(const ParameterList& 
   {
     vAutocorrel_[i] = getParameterValue("lambda" + TextTools::toString(i + 1));
   }
+  computeEquilibriumFrequencies_();
 
   upToDate_ = false;
 }
